@@ -1,9 +1,36 @@
 import SoundeventModel.Ops.Common
+import SoundeventModel.Grouping
 namespace SE.Ops.C13
-open Lean SE
+open Lean SE SE.Grouping
 
-def handle (op : String) (_a : Json) : Except String Json := do
+/-- adjacency matrix as rows of 0/1; entries outside the matrix are false -/
+def getAdj (j : Json) : Except String (Nat → Nat → Bool) := do
+  let rows ← (← getArr j).mapM getNatList
+  let m : Array (Array Nat) := (rows.map List.toArray).toArray
+  return fun a b => ((m.getD a #[]).getD b 0) != 0
+
+def pairsJ (ps : List (Nat × Nat)) : Json := arrJ (ps.map fun p => natsJ [p.1, p.2])
+def groupsJ (gs : List (List Nat)) : Json := arrJ (gs.map natsJ)
+
+def getPairs (j : Json) : Except String (List (Nat × Nat)) := do
+  (← getArr j).mapM fun p => do
+    match ← getNatList p with
+    | [a, b] => return (a, b)
+    | _ => .error "expected index pair"
+
+def handle (op : String) (a : Json) : Except String Json := do
+  let n ← fldNat a "n"
+  let adj ← getAdj (← fld a "adj")
   match op with
+  | "group" =>
+    return valJ (Json.mkObj [("groups", groupsJ (group n adj)), ("calls", pairsJ (pairs n))])
+  | "group_loop" =>
+    -- the final loop of the code, literally (equal to `group` by theorem C13_loop)
+    return valJ (groupsJ (groupLoop (labelAt (labelList n adj)) n))
+  | "holds" =>
+    let out ← fld a "out"
+    let gs ← (← fldArr out "groups").mapM getNatList
+    return boolJ (holds n adj gs (← getPairs (← fld out "calls")))
   | _ => .error s!"C13: unknown op {op}"
 
 end SE.Ops.C13
